@@ -278,9 +278,9 @@ def run(ctx):
     core.celpy()
     ck = Checker(acc)
     boundary_sweep(ck, ctx)
-    accessor_cases(ck, rnd, ctx.scale(16000, 640000))
-    law_cases(ck, rnd, ctx.scale(12000, 480000))
-    duration_cases(ck, rnd, ctx.scale(6000, 240000))
+    accessor_cases(ck, rnd, ctx.scale(48000, 960000))
+    law_cases(ck, rnd, ctx.scale(36000, 720000))
+    duration_cases(ck, rnd, ctx.scale(18000, 360000))
     acc.sample({"law": "(t + d) - d", "t": MV.ts_text(1234567890 * 10**6), "d_us": 1500000})
     acc.sample({"accessor": "getDayOfWeek", "zone": "Australia/Lord_Howe"})
     acc.sample({"duration_text": duration_text(rnd)})
